@@ -169,7 +169,7 @@ func TestC17Random(t *testing.T) {
 			c.Branch = branch4(genBranch().Draw(rt, "branch"))
 		}
 		if mode == "dryrun" {
-			c.Exts = genExts(f.Names()).Draw(rt, "exts")
+			c.Exts = genExts(extSources(f)).Draw(rt, "exts")
 		}
 		c17Record(col, c, origin, f.Count(), f.Depth())
 		if msg := c17Check(c); msg != "" {
